@@ -10,8 +10,8 @@ for f in sorted(glob.glob(os.path.join(VERIF, "seeded", "*", "meta.json"))):
     what = m.get("summary", "")
     if not what and os.path.exists(readme):
         txt = open(readme).read()
-        para = [l.strip() for l in txt.split("\n") if l.strip() and not l.startswith("#")]
-        what = (para[0] if para else "")[:220]
+        para = [l.strip() for l in txt.split("\n") if l.strip() and not l.startswith(("#", "```", "---", "|"))]
+        what = " ".join(para[:2])[:240] if para else ""
     verdict = []
     for c in m.get("caught_by", []):
         verdict.append(f"`{c}`: VIOLATION with failing input")
@@ -19,10 +19,16 @@ for f in sorted(glob.glob(os.path.join(VERIF, "seeded", "*", "meta.json"))):
         verdict.append(f"`{c}`: VIOLATION no-failing-input-found")
     if not verdict:
         verdict = ["MISSED"]
-    suite = m.get("suite_with_change", {}).get("summary", "?")
+    sw = m.get("suite_with_change", {})
+    suite = sw.get("summary", "?").split(",")[0]
+    if sw.get("failed"):
+        alone = sw.get("rerun_alone", {})
+        flaky = all(t.split("::")[-1] in ("test_unclean_shell", "test_gdb_machine") or "passed" in alone.get(t, "") for t in sw["failed"])
+        suite += " (" + ", ".join(t.split("::")[-1] for t in sw["failed"]) + (": timing-dependent, fails on the unchanged tree too" if flaky else "") + ")"
     demo = f"{m.get('demo_without_change', {}).get('exit')}/{m.get('demo_with_change', {}).get('exit')}"
     note = m.get("note", "")
-    rows.append(f"| {name} | {what.replace('|', '/')} | {demo} | {suite.split(',')[0]} | {'; '.join(verdict)} {note} |")
+    what = re.sub(r"\s+", " ", what.replace("|", "/"))
+    rows.append(f"| {name} | {what} | {demo} | {suite} | {'; '.join(verdict)} {note} |")
 table = "\n".join(["| seed | change (from its README) | demo exit without/with | suite with change | checks |", "|---|---|---|---|---|"] + rows)
 p = os.path.join(VERIF, "DESIGN.md")
 s = open(p).read()
